@@ -181,16 +181,15 @@ def initLoop (st : PSettings) (toks : List TI) : Nat → Nat → PS → Except P
       | .error e => .error e
       | .ok p' => initLoop st toks fuel (i+1) p'
 
-/-- unresolved attributes are filled from tokens displaced by a later, better fitting token -/
+/-- unresolved attributes are filled from numeric tokens displaced by a later, better fitting token: each such token fills *one*
+    unresolved attribute (`unset_numbers.pop()`, last token first; `Gen.unknownFillOnce` records that the source does so) -/
 def fillUnknown (p : PS) : Except PyErr PS :=
-  [Comp.year, .month, .day].foldlM (fun (q : PS) attr =>
-    if (q.getC attr).isSome then pure q else
-    q.unset.foldlM (fun (q : PS) (tc : TI × Comp) =>
-      if tc.1.ty = 0 then
-        match tc.1.intVal with
-        | some v => pure ((q.setC attr v).setT attr (.plain tc.1.text))
-        | none => .error (.value .other)
-      else pure q) q) p
+  let nums := (p.unset.filter (fun (tc : TI × Comp) => tc.1.ty = 0)).reverse
+  let unknown := [Comp.year, .month, .day].filter (fun a => (p.getC a).isNone)
+  (unknown.zip nums).foldlM (fun (q : PS) (x : Comp × (TI × Comp)) =>
+    match x.2.1.intVal with
+    | some v => pure ((q.setC x.1 v).setT x.1 (.plain x.2.1.text))
+    | none => .error (.value .other)) p
 
 def checkStrict (st : PSettings) (missing : List Comp) : Except PyErr Unit :=
   if st.strict ∧ missing ≠ [] then .error (.value .strict)
